@@ -67,7 +67,7 @@ def mirror(origin : tm, mirror_point :tm) -> tm:
     x1 = mirror_point[0]
     y1 = mirror_point[1]
     z1 = mirror_point[2]
-    k = (-a * x1 - b * y1 - c * z1 - d) / float((a * a + b * b + c * c))
+    k = (-a * x1 - b * y1 - c * z1 + d) / float((a * a + b * b + c * c))
     x2 = a * k + x1
     y2 = b * k + y1
     z2 = c * k + z1
